@@ -2,6 +2,7 @@ SPECIFICATION Spec
 CONSTANTS
  MaxN = 4
  PairN = {2, 3}
+ InterN = {4, 5}
  TripleN = {3}
 INVARIANT UnitaryColumns
 CHECK_DEADLOCK FALSE
